@@ -395,6 +395,12 @@ impl Program {
         self.location = frame.return_location;
     }
 
+    /// Pop the function call that was most recently pushed onto the stack, without
+    /// returning from it. This is for abandoning a function call that failed.
+    pub fn discard_function_call_from_stack(&mut self) {
+        self.stack.pop();
+    }
+
     pub fn find_variable_value_in_stack(&self, variable_name: &Symbol) -> Option<Value> {
         // Yes, it's really weird that we're crawling up the function call stack to look up
         // variables. This is not normal. But it's how Applesoft BASIC seems to work?
